@@ -223,7 +223,7 @@ theorem build_annotations :
       = ok t.annotations := by
   apply mapM_range'_ok' t.annotations 0 t.annotations.length rfl
   intro i hi
-  simp only [horzOf, Nat.zero_add, idx_eq hi]
+  simp only [horzOf, horzWith, Nat.zero_add, idx_eq hi]
 
 theorem build_rule {i : Nat} (hi : i < t.rules.length) :
     buildRule (horzOf d t) i = ok t.rules[i] := by
@@ -238,18 +238,18 @@ theorem build_rule {i : Nat} (hi : i < t.rules.length) :
       (List.range' 0 (horzOf d t).inputClauseCount) = ok t.rules[i].ins := by
     apply mapM_range'_ok' t.rules[i].ins 0 _ h1
     intro c hc
-    simp only [horzOf, idx_eq hi', Outcome.ok_bind, List.getElem_map, Nat.zero_add, idx_eq hc]
+    simp only [horzOf, horzWith, idx_eq hi', Outcome.ok_bind, List.getElem_map, Nat.zero_add, idx_eq hc]
   have e2 : Outcome.mapM (fun c => do let row ← idx (horzOf d t).outputEntries i; idx row c)
       (List.range' 0 (horzOf d t).outputClauseCount) = ok t.rules[i].outs := by
     apply mapM_range'_ok' t.rules[i].outs 0 _ h2
     intro c hc
-    simp only [horzOf, idx_eq ho', Outcome.ok_bind, List.getElem_map, Nat.zero_add, idx_eq hc]
+    simp only [horzOf, horzWith, idx_eq ho', Outcome.ok_bind, List.getElem_map, Nat.zero_add, idx_eq hc]
   have e3 : Outcome.mapM (fun c => do let row ← idx (horzOf d t).annotationEntries i; idx row c)
       (List.range' 0 (horzOf d t).annotationClauseCount) = ok t.rules[i].anns := by
     apply mapM_range'_ok' t.rules[i].anns 0 _ h3
     intro c hc
     have hk : t.annotations.length ≠ 0 := by omega
-    simp only [horzOf, if_neg hk, idx_eq ha', Outcome.ok_bind, List.getElem_map, Nat.zero_add, idx_eq hc]
+    simp only [horzOf, horzWith, if_neg hk, idx_eq ha', Outcome.ok_bind, List.getElem_map, Nat.zero_add, idx_eq hc]
   unfold buildRule
   rw [e1, e2, e3]
   rfl
